@@ -1178,8 +1178,150 @@ def translate_context_calls():
             ": List CallSpec := Id.run do")
     return head + "\n" + "\n".join(out) + "\n"
 
+# ------------------------------------------------------------------------------------------------------------------------------
+# config_creator.fx_parser: evaluate_stack (recursive, pops a list) and the evaluation half of eval_fx
+# ------------------------------------------------------------------------------------------------------------------------------
+FX_STATS = ("mean", "min", "max", "std")
+
+
+def _lean_str(v):
+    if not (isinstance(v, str) and v.isascii() and '"' not in v and "\\" not in v and v.isprintable()):
+        raise Untranslatable(f"string literal {v!r}")
+    return '"' + v + '"'
+
+
+def translate_eval_fx():  # noqa: C901, PLR0912, PLR0915
+    tree = ast.parse((REPO / "ioos_qc/config_creator/fx_parser.py").read_text())
+    top = {n.name: n for n in tree.body if isinstance(n, ast.FunctionDef)}
+    assigns = {src(n.targets[0]): n.value for n in tree.body if isinstance(n, ast.Assign) and len(n.targets) == 1}
+    # the tables `opn` and `fn`
+    opn, fnd = assigns.get("opn"), assigns.get("fn")
+    if not (isinstance(opn, ast.Dict) and isinstance(fnd, ast.Dict)):
+        raise Untranslatable("fx_parser: opn / fn tables")
+    ops = []
+    for k, v in zip(opn.keys, opn.values):
+        if not (isinstance(k, ast.Constant) and isinstance(v, ast.Attribute) and src(v.value) == "operator"
+                and v.attr in ("add", "sub", "mul", "truediv", "pow")):
+            raise Untranslatable(f"opn entry {src(k)}: {src(v)}")
+        ops.append(f"({_lean_str(k.value)}, .{v.attr})")
+    if not all(isinstance(k, ast.Constant) for k in fnd.keys):
+        raise Untranslatable("fn keys")
+    fn_names = [_lean_str(k.value) for k in fnd.keys]
+    if src(assigns.get("exprStack", ast.Constant(0))) != "[]":
+        raise Untranslatable("exprStack")
+
+    f = top.get("evaluate_stack")
+    if f is None or [a.arg for a in f.args.args] != ["s", "stats"] or f.args.vararg or f.args.kwarg or f.args.defaults:
+        raise Untranslatable("signature of evaluate_stack")
+    rec = "self s"
+    body = [b for b in f.body if not (isinstance(b, ast.Expr) and isinstance(b.value, ast.Constant))]
+    out = []
+
+    def cond(t):
+        """an `if` test on the popped string"""
+        if isinstance(t, ast.Compare) and len(t.ops) == 1 and src(t.left) == "op" and isinstance(t.comparators[0], ast.Constant) \
+                and isinstance(t.comparators[0].value, str):
+            lit = _lean_str(t.comparators[0].value)
+            if isinstance(t.ops[0], ast.Eq):
+                return f"op == {lit}"
+            if isinstance(t.ops[0], ast.In):
+                return f"strIn op {lit}"
+        if src(t) == "op in fn":
+            return "fnNames.contains op"
+        if src(t) == "op[0].isalpha()":
+            return "(← alpha0 op)"
+        raise Untranslatable(f"evaluate_stack: test {src(t)[:60]}")
+
+    def branch(stmts, ind):
+        """the body of one branch"""
+        pad = " " * ind
+        names = []
+        for st in stmts[:-1]:
+            if isinstance(st, ast.Assign) and len(st.targets) == 1 and isinstance(st.targets[0], ast.Name) \
+                    and src(st.value) == "evaluate_stack(s, stats)" and st.targets[0].id not in ("s", "stats", "op", "fuel"):
+                names.append(st.targets[0].id)
+                out.append(f"{pad}let ({st.targets[0].id}, s) ← {rec}")
+            elif src(st) == "args = reversed([evaluate_stack(s, stats) for _ in range(num_args)])":
+                names.append("args")                    # the arguments of a function call: a value outside ℚ follows
+            else:
+                raise Untranslatable(f"evaluate_stack: {src(st)[:70]}")
+        last = stmts[-1]
+        if isinstance(last, ast.Raise):
+            out.append(f"{pad}.error .raised")
+            return
+        if not isinstance(last, ast.Return) or last.value is None:
+            raise Untranslatable(f"evaluate_stack: {src(last)[:70]}")
+        v = last.value
+        t = src(v)
+        if t == "-evaluate_stack(s, stats)" and not names:
+            out.append(f"{pad}let (v, s) ← {rec}")
+            out.append(f"{pad}return (-v, s)")
+        elif isinstance(v, ast.Call) and src(v.func) == "opn[op]" and len(v.args) == 2 and not v.keywords \
+                and all(isinstance(a, ast.Name) and a.id in names for a in v.args) and sorted(a.id for a in v.args) == sorted(names):
+            out.append(f"{pad}let v ← (← lookupOp opn op).app {v.args[0].id} {v.args[1].id}")
+            out.append(f"{pad}return (v, s)")
+        elif t in ("math.pi", "math.e") and not names:
+            out.append(f"{pad}.error .unmodelled")
+        elif t == "fn[op](*args)" and names == ["args"]:
+            out.append(f"{pad}.error .unmodelled")
+        elif isinstance(v, ast.Subscript) and src(v.value) == "stats" and isinstance(v.slice, ast.Constant) and v.slice.value in FX_STATS and not names:
+            out.append(f"{pad}return (stats .{v.slice.value}, s)")
+        elif t == "float(op)" and not names:
+            out.append(f"{pad}let v ← fromFloat (pyFloat op)")
+            out.append(f"{pad}return (v, s)")
+        else:
+            raise Untranslatable(f"evaluate_stack: return {t[:60]}")
+
+    def chain(st, ind, first=True):
+        pad = " " * ind
+        out.append(f"{pad}{'if' if first else 'else if'} {cond(st.test)} then")
+        branch(st.body, ind + 2)
+        if not st.orelse:
+            if not first:
+                raise Untranslatable("evaluate_stack: an elif chain without a final else")
+            return
+        if len(st.orelse) == 1 and isinstance(st.orelse[0], ast.If):
+            chain(st.orelse[0], ind, first=False)
+        else:
+            out.append(f"{pad}else")
+            branch(st.orelse, ind + 2)
+
+    if len(body) < 3 or src(body[0]) != "op, num_args = (s.pop(), 0)":
+        raise Untranslatable("evaluate_stack: the pop")
+    if not (isinstance(body[1], ast.If) and src(body[1].test) == "isinstance(op, tuple)" and not body[1].orelse
+            and [src(b) for b in body[1].body] == ["op, num_args = op"]):
+        raise Untranslatable("evaluate_stack: the tuple test")
+    out.append("    let (op, s) ← pop s")
+    out.append("    let (op, num_args) := untuple op")
+    rest = body[2:]
+    for i, st in enumerate(rest):
+        if not isinstance(st, ast.If):
+            raise Untranslatable(f"evaluate_stack: {src(st)[:70]}")
+        if st.orelse and i != len(rest) - 1:
+            raise Untranslatable("evaluate_stack: an if / else before the last statement")
+        if not st.orelse and not isinstance(st.body[-1], (ast.Return, ast.Raise)):
+            raise Untranslatable("evaluate_stack: a branch that falls through")
+        chain(st, 4)
+    if not rest[-1].orelse:
+        raise Untranslatable("evaluate_stack: falls off the end")
+
+    e = top.get("eval_fx")
+    eb = [b for b in (e.body if e else []) if not (isinstance(b, ast.Expr) and isinstance(b.value, ast.Constant))]
+    if e is None or [a.arg for a in e.args.args] != ["fx", "stats"] or [src(b) for b in eb] != [
+            "_ = BNF().parseString(fx, parseAll=True)", "val = evaluate_stack(exprStack[:], stats)", "return val"]:
+        raise Untranslatable("eval_fx")
+    return (f"def opn : List (String × Op2) := [{', '.join(ops)}]\n\n"
+            f"def fnNames : List String := [{', '.join(fn_names)}]\n\n"
+            "def evaluate_stack (pyFloat : String → Option Rat) (stats : StatName → Rat)\n"
+            "    (self : List SE → FxR (Rat × List SE)) (s : List SE) : FxR (Rat × List SE) := do\n" + "\n".join(o[2:] for o in out) + "\n\n"
+            "def eval_fx (pyFloat : String → Option Rat) (stats : StatName → Rat) (exprStack : List SE) : FxR Rat := do\n"
+            "  let (val, _) ← tie (evaluate_stack pyFloat stats) (exprStack.length + 1) exprStack.reverse\n"
+            "  return val\n")
+
 
 def translate(name: str) -> str:
+    if name == "eval_fx":
+        return translate_eval_fx()
     if name == "ContextConfig_calls":
         return translate_context_calls()
     if name == "Call_run":
